@@ -42,62 +42,69 @@ Section Paths.
   Qed.
 End Paths.
 
-(* ------------------------------------------------------------------ sorting by decreasing probability *)
-Definition heavier (e1 e2 : edge) : Prop := (e_p e2 < e_p e1)%Q.
+(* ------------------------------------------------------------------ sorting by decreasing rank *)
+Section Sorting.
+  Variable le : rank_le.
+  Hypothesis Hord : rank_order le.
 
-Lemma insert_in : forall e l x, In x (insert_desc e l) <-> x = e \/ In x l.
-Proof.
-  induction l as [|y t IH]; intros x; cbn [insert_desc].
-  - simpl. intuition.
-  - destruct (Qle_bool (e_p y) (e_p e)); cbn [In]; [intuition|]. rewrite IH. intuition.
-Qed.
+  (* e1 is ranked strictly higher than e2 *)
+  Definition hv (e1 e2 : edge) : Prop := le e2 e1 = true /\ le e1 e2 = false.
 
-Lemma sort_in : forall l x, In x (sort_desc l) <-> In x l.
-Proof.
-  induction l as [|y t IH]; intros x; cbn [sort_desc]; [tauto|]. rewrite insert_in, IH. cbn [In]. intuition.
-Qed.
+  Lemma insert_in : forall e l x, In x (insert_desc le e l) <-> x = e \/ In x l.
+  Proof.
+    induction l as [|y t IH]; intros x; cbn [insert_desc].
+    - simpl. intuition.
+    - destruct (le y e); cbn [In]; [intuition|]. rewrite IH. intuition.
+  Qed.
 
-Lemma insert_sorted : forall e l,
-  StronglySorted heavier l -> Forall (fun x => ~ (e_p x == e_p e)%Q) l -> StronglySorted heavier (insert_desc e l).
-Proof.
-  induction l as [|y t IH]; intros Hs Hd; cbn [insert_desc].
-  - constructor; constructor.
-  - inversion Hs as [|? ? Hst Hyt]; subst. inversion Hd as [|? ? Hye Hdt]; subst.
-    destruct (Qle_bool (e_p y) (e_p e)) eqn:El.
-    + apply Qle_bool_iff in El. assert (Hlt : (e_p y < e_p e)%Q).
-      { apply Qle_lteq in El. destruct El as [H|H]; [assumption|contradiction]. }
-      constructor; [assumption|]. constructor; [exact Hlt|].
-      rewrite Forall_forall in *. intros z Hz. unfold heavier in *. apply Qlt_trans with (e_p y); auto.
-    + assert (Hlt : (e_p e < e_p y)%Q).
-      { apply Qnot_le_lt. intro H. apply Qle_bool_iff in H. congruence. }
-      constructor; [apply IH; assumption|]. rewrite Forall_forall in *. intros z Hz.
-      apply insert_in in Hz. destruct Hz as [->|Hz]; [exact Hlt|auto].
-Qed.
+  Lemma sort_in : forall l x, In x (sort_desc le l) <-> In x l.
+  Proof.
+    induction l as [|y t IH]; intros x; cbn [sort_desc]; [tauto|]. rewrite insert_in, IH. cbn [In]. intuition.
+  Qed.
 
-Lemma tie_free_filter : forall f l, tie_free l -> tie_free (filter f l).
-Proof.
-  unfold tie_free. induction l as [|x t IH]; intros H; cbn [filter]; [constructor|].
-  inversion H as [|? ? Hx Ht]; subst. destruct (f x); [|auto].
-  constructor; [|auto]. rewrite Forall_forall in *. intros y Hy. apply filter_In in Hy. apply Hx. tauto.
-Qed.
+  Lemma insert_sorted : forall e l,
+    StronglySorted hv l -> Forall (fun x => ~ (le x e = true /\ le e x = true)) l ->
+    StronglySorted hv (insert_desc le e l).
+  Proof.
+    induction l as [|y t IH]; intros Hs Hd; cbn [insert_desc].
+    - constructor; constructor.
+    - inversion Hs as [|? ? Hst Hyt]; subst. inversion Hd as [|? ? Hye Hdt]; subst.
+      destruct (le y e) eqn:El.
+      + assert (Hey : le e y = false) by (destruct (le e y) eqn:E2; [exfalso; apply Hye; auto|reflexivity]).
+        constructor; [assumption|]. constructor; [split; assumption|].
+        rewrite Forall_forall in *. intros z Hz. destruct (Hyt z Hz) as [Hzy Hyz]. split.
+        * apply (ro_trans le Hord) with y; assumption.
+        * destruct (le e z) eqn:E3; [|reflexivity]. rewrite (ro_trans le Hord y e z El E3) in Hyz. discriminate.
+      + assert (Hey : le e y = true) by (destruct (ro_total le Hord e y); [assumption|congruence]).
+        constructor; [apply IH; assumption|]. rewrite Forall_forall in *. intros z Hz.
+        apply insert_in in Hz. destruct Hz as [->|Hz]; [split; assumption|auto].
+  Qed.
 
-Lemma sort_sorted : forall l, tie_free l -> StronglySorted heavier (sort_desc l).
-Proof.
-  induction l as [|x t IH]; intros H; cbn [sort_desc]; [constructor|].
-  inversion H as [|? ? Hx Ht]; subst. apply insert_sorted; [apply IH; assumption|].
-  rewrite Forall_forall in *. intros y Hy. apply (proj1 (sort_in _ _)) in Hy. intro Heq. apply (Hx y Hy). symmetry. exact Heq.
-Qed.
+  Lemma strict_rank_filter : forall f l, strict_rank le l -> strict_rank le (filter f l).
+  Proof.
+    unfold strict_rank. induction l as [|x t IH]; intros H; cbn [filter]; [constructor|].
+    inversion H as [|? ? Hx Ht]; subst. destruct (f x); [|auto].
+    constructor; [|auto]. rewrite Forall_forall in *. intros y Hy. apply filter_In in Hy. apply Hx. tauto.
+  Qed.
 
-Lemma sorted_split : forall (L : list edge) e,
-  StronglySorted heavier L -> In e L ->
-  exists L1 L2, L = L1 ++ e :: L2 /\ Forall (fun h => heavier h e) L1.
-Proof.
-  induction L as [|x t IH]; intros e Hs Hin; [contradiction|].
-  inversion Hs as [|? ? Hst Hxt]; subst. destruct Hin as [->|Hin].
-  - exists [], t. split; [reflexivity|constructor].
-  - destruct (IH e Hst Hin) as (L1 & L2 & -> & HF). exists (x :: L1), L2. split; [reflexivity|].
-    constructor; [|assumption]. rewrite Forall_forall in Hxt. apply Hxt. apply in_or_app. right. left. reflexivity.
-Qed.
+  Lemma sort_sorted : forall l, strict_rank le l -> StronglySorted hv (sort_desc le l).
+  Proof.
+    induction l as [|x t IH]; intros H; cbn [sort_desc]; [constructor|].
+    inversion H as [|? ? Hx Ht]; subst. apply insert_sorted; [apply IH; assumption|].
+    rewrite Forall_forall in *. intros y Hy. apply (proj1 (sort_in _ _)) in Hy. intros [H1 H2]. apply (Hx y Hy). auto.
+  Qed.
+
+  Lemma sorted_split : forall (L : list edge) e,
+    StronglySorted hv L -> In e L ->
+    exists L1 L2, L = L1 ++ e :: L2 /\ Forall (fun h => hv h e) L1.
+  Proof.
+    induction L as [|x t IH]; intros e Hs Hin; [contradiction|].
+    inversion Hs as [|? ? Hst Hxt]; subst. destruct Hin as [->|Hin].
+    - exists [], t. split; [reflexivity|constructor].
+    - destruct (IH e Hst Hin) as (L1 & L2 & -> & HF). exists (x :: L1), L2. split; [reflexivity|].
+      constructor; [|assumption]. rewrite Forall_forall in Hxt. apply Hxt. apply in_or_app. right. left. reflexivity.
+  Qed.
+End Sorting.
 
 (* ------------------------------------------------------------------ the greedy procedure *)
 Section GreedyFacts.
@@ -317,13 +324,15 @@ Section Refinement.
   Variable thr : option Q.
   Variable nodes : list node.
   Variable E : list edge.
+  Variable le : rank_le.
+  Hypothesis Hord : rank_order le.
   Hypothesis Hnd0 : NoDup (map n_id nodes).
-  Hypothesis Htf : tie_free E.
+  Hypothesis Htf : strict_rank le E.
   Variables chl chr : chooser.
-  Hypothesis Hl : rank1_ok chl.
-  Hypothesis Hr : rank1_ok chr.
+  Hypothesis Hl : rank1_ok_for le chl.
+  Hypothesis Hr : rank1_ok_for le chr.
 
-  Let L := sort_desc (filter (usable thr nodes) E).
+  Let L := sort_desc le (filter (usable thr nodes) E).
   Let G := greedy dfs nodes L.
   Let nbs := df_neighbours thr E.
   Notation gstep := (g_step dfs nodes).
@@ -331,8 +340,8 @@ Section Refinement.
   Lemma L_in : forall e, In e L <-> In e E /\ usable thr nodes e = true.
   Proof. intros. unfold L. rewrite sort_in, filter_In. tauto. Qed.
 
-  Lemma L_sorted : StronglySorted heavier L.
-  Proof. unfold L. apply sort_sorted. apply tie_free_filter. assumption. Qed.
+  Lemma L_sorted : StronglySorted (hv le) L.
+  Proof. unfold L. apply sort_sorted; [assumption|]. apply strict_rank_filter. assumption. Qed.
 
   Lemma usable_ok : forall e, In e E -> usable thr nodes e = true -> okedge nodes thr E e.
   Proof.
@@ -378,50 +387,67 @@ Section Refinement.
       In e E -> above thr (e_p e) = true ->
       In (h1, X, s1) t -> In (h2, Zc, s2) t -> X <> Zc -> G h1 = G h2 ->
       ((e_l e = h1 /\ e_r e = h2) \/ (e_l e = h2 /\ e_r e = h1)) ->
-      exists r, In r rows /\ c_lrep r = X /\ c_p r = e_p e.
+      exists r, In r rows /\ c_lrep r = X /\ req e (row_edge r).
     Proof.
       intros e h1 X s1 h2 Zc s2 He Ha H1 H2 Hne HG Hd.
       pose proof (flags_disjoint_same_G _ _ _ _ _ _ H1 H2 Hne HG) as Hns.
       destruct (in_indexed E 0 e He) as [i Hi].
-      destruct Hd as [[Hl1 Hr1]|[Hl1 Hr1]].
-      - eexists. split; [apply candidates_in; exists (fwd i e), (h1, X, s1), (h2, Zc, s2);
-          split; [apply nbs_in; exists i, e; auto|]; repeat (split; [first [assumption|reflexivity]|]); reflexivity|].
-        cbn. auto.
-      - eexists. split; [apply candidates_in; exists (bwd i e), (h1, X, s1), (h2, Zc, s2);
-          split; [apply nbs_in; exists i, e; auto|]; repeat (split; [first [assumption|reflexivity]|]); reflexivity|].
-        cbn. auto.
+      destruct e as [[el er] ep]. unfold e_l, e_r, e_p in *. cbn [fst snd] in *.
+      destruct Hd as [[Hl1 Hr1]|[Hl1 Hr1]]; subst.
+      - eexists. split; [apply candidates_in; exists (fwd i (h1, h2, ep)), (h1, X, s1), (h2, Zc, s2);
+          split; [apply nbs_in; exists i, (h1, h2, ep); auto|]; repeat (split; [first [assumption|reflexivity]|]); reflexivity|].
+        cbn. split; [reflexivity|]. left. reflexivity.
+      - eexists. split; [apply candidates_in; exists (bwd i (h2, h1, ep)), (h1, X, s1), (h2, Zc, s2);
+          split; [apply nbs_in; exists i, (h2, h1, ep); auto|]; repeat (split; [first [assumption|reflexivity]|]); reflexivity|].
+        cbn. split; [reflexivity|]. right. reflexivity.
     Qed.
 
-    Lemma same_row_p : forall a b, same_row a b = true -> (c_p a == c_p b)%Q.
-    Proof. intros a b H. unfold same_row in H. apply andb_true_iff in H. destruct H as [_ H]. apply Qeq_bool_iff. exact H. Qed.
+    Lemma same_row_edge : forall a b, In a rows -> In b rows -> same_row a b = true -> row_edge a = row_edge b.
+    Proof.
+      intros a b Ha Hb Hs.
+      destruct (cand_prov dfs thr E t a Ha) as (i & e & _ & _ & Hie & _ & _ & _ & _ & _ & _ & _ & Hpa & _ & _ & Hda).
+      destruct (cand_prov dfs thr E t b Hb) as (j & e' & _ & _ & Hje & _ & _ & _ & _ & _ & _ & _ & Hpb & _ & _ & Hdb).
+      pose proof (same_row_node a b Hs) as [Hn Hb'].
+      unfold same_row in Hs. apply andb_true_iff in Hs. destruct Hs as [Hs _].
+      apply andb_true_iff in Hs. destruct Hs as [Hs _]. apply andb_true_iff in Hs. destruct Hs as [Hrid _].
+      unfold rid_eqb in Hrid. apply andb_true_iff in Hrid. destruct Hrid as [Hi Hdir].
+      apply Nat.eqb_eq in Hi. apply eqb_prop in Hdir.
+      assert (Hij : i = j).
+      { destruct Hda as [(Ha1 & _)|(Ha1 & _)], Hdb as [(Hb1 & _)|(Hb1 & _)]; rewrite Ha1, Hb1 in Hi; cbn in Hi; assumption. }
+      subst j. assert (e = e') by (apply (indexed_fun E 0 i); assumption). subst e'.
+      unfold row_edge. rewrite Hn, Hb', Hpa, Hpb. reflexivity.
+    Qed.
 
-    Lemma acc_p_max_l : forall a r, In a acc -> In r rows -> c_lrep r = c_lrep a -> (c_p r <= c_p a)%Q.
+    Lemma acc_p_max_l : forall a r, In a acc -> In r rows -> c_lrep r = c_lrep a -> le (row_edge r) (row_edge a) = true.
     Proof.
       intros a r Ha Hr' Hlr. destruct (acc_in _ _ _ _ _ _ _ Ha) as (Hc & Hsl & _). fold rows in Hsl, Hc.
       assert (Hin : In r (part_l rows (c_lrep a))) by (apply filter_In; split; [assumption|apply Z.eqb_eq; assumption]).
       assert (Hne : part_l rows (c_lrep a) <> []) by (intro H; rewrite H in Hin; exact Hin).
-      destruct (Hl it (c_lrep a) _ Hne) as [_ Hmax]. apply same_row_p in Hsl. rewrite Hsl. apply Hmax. assumption.
+      destruct (Hl it (c_lrep a) _ Hne) as [Hch Hmax].
+      rewrite (same_row_edge a _ Hc (proj1 (proj1 (filter_In _ _ _) Hch)) Hsl). apply Hmax. assumption.
     Qed.
 
-    Lemma acc_p_max_r : forall a r, In a acc -> In r rows -> c_rrep r = c_rrep a -> (c_p r <= c_p a)%Q.
+    Lemma acc_p_max_r : forall a r, In a acc -> In r rows -> c_rrep r = c_rrep a -> le (row_edge r) (row_edge a) = true.
     Proof.
       intros a r Ha Hr' Hlr. destruct (acc_in _ _ _ _ _ _ _ Ha) as (Hc & _ & Hsr). fold rows in Hsr, Hc.
       assert (Hin : In r (part_r rows (c_rrep a))) by (apply filter_In; split; [assumption|apply Z.eqb_eq; assumption]).
       assert (Hne : part_r rows (c_rrep a) <> []) by (intro H; rewrite H in Hin; exact Hin).
-      destruct (Hr it (c_rrep a) _ Hne) as [_ Hmax]. apply same_row_p in Hsr. rewrite Hsr. apply Hmax. assumption.
+      destruct (Hr it (c_rrep a) _ Hne) as [Hch Hmax].
+      rewrite (same_row_edge a _ Hc (proj1 (proj1 (filter_In _ _ _) Hch)) Hsr). apply Hmax. assumption.
     Qed.
 
-    Lemma acc_p_max_leaving_r : forall a r, In a acc -> In r rows -> c_lrep r = c_rrep a -> (c_p r <= c_p a)%Q.
+    Lemma acc_p_max_leaving_r : forall a r, In a acc -> In r rows -> c_lrep r = c_rrep a -> le (row_edge r) (row_edge a) = true.
     Proof.
-      intros a r Ha Hr' Hlr. destruct (mirror_in dfs thr E t r Hr') as (r' & Hr'' & _ & _ & _ & Hrr & Hp).
-      rewrite <- Hp. apply acc_p_max_r; auto. congruence.
+      intros a r Ha Hr' Hlr. destruct (mirror_in dfs thr E t r Hr') as (r' & Hr'' & Hn' & Hb' & _ & Hrr & Hp).
+      rewrite <- (le_req le Hord (row_edge r) (row_edge a) (row_edge r') (row_edge a) (mirror_req r r' Hn' Hb' Hp) (or_introl eq_refl)).
+      apply acc_p_max_r; auto. congruence.
     Qed.
 
     (* a record in the greedy cluster (at the time the edge e0 is processed) of a record i0 lies
        in i0's class, provided no candidate row leaving that class is heavier than e0 *)
     Lemma in_class_of_cut : forall L1 e0 L2 i0 Ci s0 n1 s1,
-      L = L1 ++ e0 :: L2 -> Forall (fun h => heavier h e0) L1 ->
-      In (i0, Ci, s0) t -> (forall r, In r rows -> c_lrep r = Ci -> (c_p r <= e_p e0)%Q) ->
+      L = L1 ++ e0 :: L2 -> Forall (fun h => hv le h e0) L1 ->
+      In (i0, Ci, s0) t -> (forall r, In r rows -> c_lrep r = Ci -> le (row_edge r) e0 = true) ->
       In (n1, s1) nodes -> greedy dfs nodes L1 n1 = greedy dfs nodes L1 i0 ->
       In (n1, Ci, s1) t.
     Proof.
@@ -438,7 +464,7 @@ Section Refinement.
       assert (HhL : In h L) by (rewrite HL; apply in_or_app; left; assumption).
       apply L_in in HhL. destruct HhL as [HhE Hhu].
       destruct (usable_ok h HhE Hhu) as (_ & Hha & Hnl & Hnr).
-      rewrite Forall_forall in Hheavy. pose proof (Hheavy h Hh) as Hp. unfold heavier in Hp.
+      rewrite Forall_forall in Hheavy. pose proof (Hheavy h Hh) as [_ Hp].
       assert (HG : G (e_l h) = G (e_r h)).
       { unfold G. rewrite HL. rewrite greedy_app. apply fold_mono. congruence. }
       apply is_node_true in Hnl, Hnr. destruct Hnl as [sl Hnl], Hnr as [sr Hnr].
@@ -448,14 +474,14 @@ Section Refinement.
         assert (Hcr_ne : Ci <> cr').
         { intro Heq. subst cr'. assert (S (e_r h) = true) by (apply in_classb_true; eauto). congruence. }
         destruct (cross_is_candidate h (e_l h) Ci sl' (e_r h) cr' sr HhE Hha Hsl' Hcr' Hcr_ne HG) as (r & Hr1 & Hr2 & Hr3); [left; auto|].
-        pose proof (Hmax r Hr1 Hr2) as Hle. rewrite Hr3 in Hle. apply (Qlt_irrefl (e_p e0)).
-        apply Qlt_le_trans with (e_p h); assumption.
+        pose proof (Hmax r Hr1 Hr2) as Hle.
+        rewrite (le_req le Hord h e0 (row_edge r) e0 Hr3 (or_introl eq_refl)) in Hle. congruence.
       - apply in_classb_true in Sr. destruct Sr as [sr' Hsr'].
         assert (Hcl_ne : Ci <> cl').
         { intro Heq. subst cl'. assert (S (e_l h) = true) by (apply in_classb_true; eauto). congruence. }
         destruct (cross_is_candidate h (e_r h) Ci sr' (e_l h) cl' sl HhE Hha Hsr' Hcl' Hcl_ne (eq_sym HG)) as (r & Hr1 & Hr2 & Hr3); [right; auto|].
-        pose proof (Hmax r Hr1 Hr2) as Hle. rewrite Hr3 in Hle. apply (Qlt_irrefl (e_p e0)).
-        apply Qlt_le_trans with (e_p h); assumption.
+        pose proof (Hmax r Hr1 Hr2) as Hle.
+        rewrite (le_req le Hord h e0 (row_edge r) e0 Hr3 (or_introl eq_refl)) in Hle. congruence.
     Qed.
 
     (* KEY: an accepted row joins two records of one greedy cluster *)
@@ -474,7 +500,7 @@ Section Refinement.
       { unfold usable. rewrite Hab. cbn [andb].
         destruct Hends as [[-> ->]|[-> ->]]; apply andb_true_iff; split; apply is_node_true; eauto. }
       assert (HeL : In e L) by (apply L_in; auto).
-      destruct (sorted_split L e L_sorted HeL) as (L1 & L2 & HL & Hheavy).
+      destruct (sorted_split le L e L_sorted HeL) as (L1 & L2 & HL & Hheavy).
       assert (HGe : G (e_l e) = G (e_r e)).
       { unfold G. rewrite HL. rewrite greedy_app. cbn [fold_left]. apply fold_mono.
         set (cl1 := greedy dfs nodes L1). unfold g_step. fold cl1.
@@ -484,10 +510,13 @@ Section Refinement.
           apply g_flag_true in Hf1, Hf2.
           destruct Hf1 as ([n1 s1] & Hn1 & Hc1 & Hs1), Hf2 as ([n2 s2] & Hn2 & Hc2 & Hs2).
           unfold n_id, n_sds in *. cbn [fst snd] in *. subst s1 s2.
-          assert (HmaxX : forall r, In r rows -> c_lrep r = X -> (c_p r <= e_p e)%Q).
-          { intros r Hr1 Hr2. rewrite <- Hpa. apply acc_p_max_l; auto. congruence. }
-          assert (HmaxY : forall r, In r rows -> c_lrep r = Y -> (c_p r <= e_p e)%Q).
-          { intros r Hr1 Hr2. rewrite <- Hpa. apply acc_p_max_leaving_r; auto. congruence. }
+          assert (Hqa : req e (row_edge a)) by (apply (cand_req a i e Hpa Hd)).
+          assert (HmaxX : forall r, In r rows -> c_lrep r = X -> le (row_edge r) e = true).
+          { intros r Hr1 Hr2. rewrite <- (le_req le Hord (row_edge r) e (row_edge r) (row_edge a) (or_introl eq_refl) Hqa).
+            apply acc_p_max_l; auto. congruence. }
+          assert (HmaxY : forall r, In r rows -> c_lrep r = Y -> le (row_edge r) e = true).
+          { intros r Hr1 Hr2. rewrite <- (le_req le Hord (row_edge r) e (row_edge r) (row_edge a) (or_introl eq_refl) Hqa).
+            apply acc_p_max_leaving_r; auto. congruence. }
           destruct Hends as [[Hel Her]|[Hel Her]].
           + rewrite Hel in Hc1. rewrite Her in Hc2.
             pose proof (in_class_of_cut L1 e L2 u X su n1 d HL Hheavy Hrl HmaxX Hn1 Hc1) as H1.
@@ -591,7 +620,7 @@ Section Refinement.
             assert (Hx : (e_r h, c, s2) = (e_r h, cl', sr)) by (apply nodup_key_unique with out; auto).
             inversion Hx; subst. assert (in_classb out cl' (e_l h) = true) by (apply in_classb_true; eauto). congruence. }
         pose proof (flags_disjoint_same_G out Hnd Hrecs HM _ _ _ _ _ _ Hcl' Hcr' Hne' HGh) as Hns.
-        apply (maximal_tiefree dfs thr chl chr fuel nodes E out Hnd0 Htf Hl Hr Hloop (e_l h) (e_r h)).
+        apply (maximal_ranked le Hord dfs thr chl chr fuel nodes E out Hnd0 Htf Hl Hr Hloop (e_l h) (e_r h)).
         split.
         + exists h. split; [assumption|]. split; [assumption|]. left. auto.
         + exists cl', cr', sl, sr. split; [assumption|]. split; [assumption|]. split; [assumption|]. exact Hns.
@@ -615,14 +644,34 @@ Section Refinement.
 End Refinement.
 
 (* ------------------------------------------------------------------ closed forms *)
+Lemma refines_greedy_ranked : forall le, rank_order le -> forall dfs thr (chl chr : chooser) fuel nodes E out,
+  NoDup (map n_id nodes) -> strict_rank le E -> rank1_ok_for le chl -> rank1_ok_for le chr ->
+  oto_loop dfs (df_neighbours thr E) chl chr fuel 1 (df_representatives nodes) = Some out ->
+  forall v c s w c' s', In (v, c, s) out -> In (w, c', s') out ->
+    (c = c' <-> greedy_clusters le dfs thr nodes E v = greedy_clusters le dfs thr nodes E w).
+Proof.
+  intros le Hord dfs thr chl chr fuel nodes E out Hnd Htf Hl Hr Hloop.
+  apply (refines_greedy_exit dfs thr nodes E le Hord Hnd Htf chl chr Hl Hr fuel out Hloop).
+Qed.
+
+Lemma connected_ranked : forall le, rank_order le -> forall dfs thr (chl chr : chooser) fuel nodes E out,
+  NoDup (map n_id nodes) -> strict_rank le E -> rank1_ok_for le chl -> rank1_ok_for le chr ->
+  oto_loop dfs (df_neighbours thr E) chl chr fuel 1 (df_representatives nodes) = Some out ->
+  forall v w c s s', In (v, c, s) out -> In (w, c, s') out -> conn_in thr E (in_class out c) v w.
+Proof.
+  intros le Hord dfs thr chl chr fuel nodes E out Hnd Htf Hl Hr Hloop.
+  apply (connected_tiefree_exit dfs thr nodes E le Hord Hnd Htf chl chr Hl Hr fuel out Hloop).
+Qed.
+
+(* order by match_probability desc, pairwise distinct probabilities *)
 Lemma refines_greedy : forall dfs thr (chl chr : chooser) fuel nodes E out,
   NoDup (map n_id nodes) -> tie_free E -> rank1_ok chl -> rank1_ok chr ->
   oto_loop dfs (df_neighbours thr E) chl chr fuel 1 (df_representatives nodes) = Some out ->
   forall v c s w c' s', In (v, c, s) out -> In (w, c', s') out ->
-    (c = c' <-> greedy_clusters dfs thr nodes E v = greedy_clusters dfs thr nodes E w).
+    (c = c' <-> greedy_clusters le_prob dfs thr nodes E v = greedy_clusters le_prob dfs thr nodes E w).
 Proof.
-  intros dfs thr chl chr fuel nodes E out Hnd Htf Hl Hr Hloop.
-  apply (refines_greedy_exit dfs thr nodes E Hnd Htf chl chr Hl Hr fuel out Hloop).
+  intros dfs thr chl chr fuel nodes E out Hnd Htf Hl Hr.
+  apply (refines_greedy_ranked le_prob le_prob_order); auto using tie_free_strict, rank1_ok_prob.
 Qed.
 
 Lemma connected_tiefree : forall dfs thr (chl chr : chooser) fuel nodes E out,
@@ -630,6 +679,36 @@ Lemma connected_tiefree : forall dfs thr (chl chr : chooser) fuel nodes E out,
   oto_loop dfs (df_neighbours thr E) chl chr fuel 1 (df_representatives nodes) = Some out ->
   forall v w c s s', In (v, c, s) out -> In (w, c, s') out -> conn_in thr E (in_class out c) v w.
 Proof.
-  intros dfs thr chl chr fuel nodes E out Hnd Htf Hl Hr Hloop.
-  apply (connected_tiefree_exit dfs thr nodes E Hnd Htf chl chr Hl Hr fuel out Hloop).
+  intros dfs thr chl chr fuel nodes E out Hnd Htf Hl Hr.
+  apply (connected_ranked le_prob le_prob_order); auto using tie_free_strict, rank1_ok_prob.
+Qed.
+
+(* order by match_probability desc, least(ids), greatest(ids): ties in probability allowed, as long
+   as no pair of records is listed twice with the same probability *)
+Lemma connected_tiebreak : forall dfs thr (chl chr : chooser) fuel nodes E out,
+  NoDup (map n_id nodes) -> nodup_pairs E -> rank1_ok_for le_tiebreak chl -> rank1_ok_for le_tiebreak chr ->
+  oto_loop dfs (df_neighbours thr E) chl chr fuel 1 (df_representatives nodes) = Some out ->
+  forall v w c s s', In (v, c, s) out -> In (w, c, s') out -> conn_in thr E (in_class out c) v w.
+Proof.
+  intros dfs thr chl chr fuel nodes E out Hnd Htf Hl Hr.
+  apply (connected_ranked le_tiebreak le_tiebreak_order); auto using nodup_pairs_strict.
+Qed.
+
+Lemma maximal_tiebreak : forall dfs thr (chl chr : chooser) fuel nodes E out,
+  NoDup (map n_id nodes) -> nodup_pairs E -> rank1_ok_for le_tiebreak chl -> rank1_ok_for le_tiebreak chr ->
+  oto_loop dfs (df_neighbours thr E) chl chr fuel 1 (df_representatives nodes) = Some out ->
+  forall v w, ~ admissible_cross dfs thr E out v w.
+Proof.
+  intros dfs thr chl chr fuel nodes E out Hnd Htf Hl Hr.
+  apply (maximal_ranked le_tiebreak le_tiebreak_order); auto using nodup_pairs_strict.
+Qed.
+
+Lemma refines_greedy_tiebreak : forall dfs thr (chl chr : chooser) fuel nodes E out,
+  NoDup (map n_id nodes) -> nodup_pairs E -> rank1_ok_for le_tiebreak chl -> rank1_ok_for le_tiebreak chr ->
+  oto_loop dfs (df_neighbours thr E) chl chr fuel 1 (df_representatives nodes) = Some out ->
+  forall v c s w c' s', In (v, c, s) out -> In (w, c', s') out ->
+    (c = c' <-> greedy_clusters le_tiebreak dfs thr nodes E v = greedy_clusters le_tiebreak dfs thr nodes E w).
+Proof.
+  intros dfs thr chl chr fuel nodes E out Hnd Htf Hl Hr.
+  apply (refines_greedy_ranked le_tiebreak le_tiebreak_order); auto using nodup_pairs_strict.
 Qed.
